@@ -16,6 +16,9 @@ use k256::{
     },
     AffinePoint, CompressedPoint, EncodedPoint,
 };
+#[cfg(enr_verif)]
+use super::verif_hooks::SimOsRng as OsRng;
+#[cfg(not(enr_verif))]
 use rand::rngs::OsRng;
 use sha3::{Digest, Keccak256};
 use std::collections::BTreeMap;
